@@ -96,6 +96,67 @@ func init() {
 		o := in.newObject(st, &Agg{elems: cells}, "ugly")
 		return SliceVal{obj: o, len: len(r), cap: len(r)}, true
 	}
+
+	// Result.ForEach on a concrete Result (the parsers walk concrete documents): the real gjson enumerates the
+	// (key, value) pairs natively; the library's closure is then executed symbolically once per pair. A closure
+	// result that depends on symbolic options forks the path (continue / stop).
+	intrinsics["(github.com/tidwall/gjson.Result).ForEach"] = func(in *Interp, st *State, fn *ssa.Function, args []Value, instr ssa.Instruction) (Value, bool) {
+		recv, ok := args[0].(*Agg)
+		if !ok {
+			unsupported("gjson.Result.ForEach on %T", args[0])
+		}
+		rt := fn.Signature.Recv().Type()
+		stt := rt.Underlying().(*types.Struct)
+		var r gjson.Result
+		for i := 0; i < stt.NumFields(); i++ {
+			switch stt.Field(i).Name() {
+			case "Type":
+				r.Type = gjson.Type(concreteInt(recv.elems[i], "gjson.Result.Type"))
+			case "Raw":
+				r.Raw = concreteStr(recv.elems[i], "gjson.Result.Raw")
+			case "Str":
+				r.Str = concreteStr(recv.elems[i], "gjson.Result.Str")
+			case "Index":
+				r.Index = int(concreteInt(recv.elems[i], "gjson.Result.Index"))
+			}
+		}
+		fv, ok := args[1].(*FuncVal)
+		if !ok || fv == nil {
+			unsupported("gjson.Result.ForEach iterator %T", args[1])
+		}
+		type pair struct{ k, v gjson.Result }
+		var pairs []pair
+		r.ForEach(func(k, v gjson.Result) bool { pairs = append(pairs, pair{k, v}); return true })
+		for _, p := range pairs {
+			rv, alive := in.callFunction(st, fv.fn, []Value{gjsonResultValue(rt, p.k), gjsonResultValue(rt, p.v)}, fv.bindings, instr)
+			if !alive {
+				return nil, false
+			}
+			c := asBoolTerm(rv)
+			if c == tTrue {
+				continue
+			}
+			if c == tFalse {
+				break
+			}
+			in.drops++
+			if in.forkBool() {
+				st.pc = And(st.pc, c)
+				in.addFact(c)
+			} else {
+				st.pc = And(st.pc, Not(c))
+				in.addFact(Not(c))
+				if st.pc == tFalse {
+					return nil, false
+				}
+				break
+			}
+			if st.pc == tFalse {
+				return nil, false
+			}
+		}
+		return nil, true
+	}
 	_ = fmt.Sprintf
 }
 
